@@ -263,3 +263,49 @@ def _replay_set_provided(model, ob):
         pv.provide_cache.clear()
         pv.provide_cache.update(saved)
     return {"confirmed": False}
+
+
+# ================================================================================================ Component.inject
+# From the property ("inject(key) returns the data of the nearest {% provide key %} that encloses the component ... outside
+# every such provider it returns the given default or raises KeyError"): the method looks the key up in the Context of THIS
+# component's current render (self.input.context) with exactly the caller's key and default, and returns what
+# get_injected_context_var (proved above) returns; outside a render it is a RuntimeError.
+COMPOBJ = Obj("ComponentObject")
+INPUT = Obj("RenderInput")
+OINPUT = Opt(INPUT)
+REG.stub(("getattr", "ComponentObject", "input"), lambda run, obj, node: Val(OINPUT, ops.uf("component_render_input", COMPOBJ.sort(), OINPUT.sort())(obj.t)))
+REG.stub(("getattr", "ComponentObject", "name"), lambda run, obj, node: Val(TStr, ops.uf("component_object_name", COMPOBJ.sort(), S)(obj.t)))
+for _tn in ("RenderInput", OINPUT.name):
+    REG.stub(("getattr", _tn, "context"), (lambda tn: lambda run, obj, node: Val(Ref(CTX), ops.uf("render_input_context", INPUT.sort(), I)(obj.t if tn == "RenderInput" else OINPUT.get(obj.t))))(_tn))
+
+
+def _inject_lookup(run, args, kwargs, node):
+    run.ghost["lookup_args"] = list(args)
+    k = run.ghost.get("lookup_calls")
+    from pyvc.types import TInt
+    run.ghost["lookup_calls"] = Val(TInt, (k.t if k is not None else z3.IntVal(0)) + 1)
+    from pyvc.interp import ExcVal, PyRaise
+    if run.choose(2, None) == 1:
+        raise PyRaise(ExcVal("KeyError", [], site="get_injected_context_var: nothing provided and no default"))
+    r = Val(TAny, z3.FreshConst(PV, "injected"))
+    run.ghost["lookup_result"] = r
+    return r
+
+
+def _inject_post(c):
+    a = c.ghost["lookup_args"]
+    s_ = c.old("self").t
+    inp = ops.uf("component_render_input", COMPOBJ.sort(), OINPUT.sort())(s_)
+    return z3.And(c.ghost["lookup_calls"].t == 1, z3.Not(OINPUT.is_none(inp)),
+                  a[0].t == ops.uf("component_object_name", COMPOBJ.sort(), S)(s_),
+                  a[1].t == ops.uf("render_input_context", INPUT.sort(), I)(OINPUT.get(inp)),
+                  c.run.coerce(a[2], TStr).t == c.old("key").t, c.run.coerce(a[3], TAny).t == c.old("default").t,
+                  c["result"].t == c.ghost["lookup_result"].t)
+
+
+REG.contract(
+    "django_components.component:Component.inject", prop=P, types={"self": COMPOBJ, "key": Str, "default": Any_}, result=Any_,
+    calls={"get_injected_context_var": _inject_lookup},
+    modifies=[], raises={"RuntimeError": lambda c: OINPUT.is_none(ops.uf("component_render_input", COMPOBJ.sort(), OINPUT.sort())(c.old("self").t)), "KeyError": None},
+    ensures={"looks_up_this_key_with_this_default_in_the_context_of_this_render": _inject_post},
+)
